@@ -1,254 +1,3 @@
-import TTModel.Proto
-import TTModel.Scalar
-import TTModel.C01_Tree
-import TTModel.C01_Pruning
-import TTModel.C01_Patterns
-/-!
-C01/C02 driver. One request per line, sections separated by `|`, words by blanks.
-Scalars: mode `q` = `Rat` written `p/q`, mode `f` = `Float` written as 16 hex digits.
-
-  idx   | <taxa…> | <tokens…>                       -> post a,b,c;… pre p,c;… tree <indexed shape> leaves <i…>
-  blt   <mode> | <taxa…> | <tokens…> | <heights 2n-1>        -> branch lengths by child index (time tree)
-  blu   <mode> | <taxa…> | <tokens…> | <edge lengths by node index 2n-2> -> kept lengths (unrooted, 2n-3)
-  asmu  <mode> | <bls> | <site rates>               -> t[b][k] rows `;`-separated (zero branch appended)
-  asmc  <mode> | <bls> | <clock rates> | <site rates>
-  lik   <mode> S K n N | <triples a,b,c …> | <π S> | <props K> | <mats B·K·S·S> | <tips n·N·S> [| <weights N>]
-  likts <mode> S K N   | <triples> | <π> | <props> | <mats> | <states n·N> [| <weights N>]
-  marg  <mode> S K n N | <taxa…> | <tokens…> | <π> | <props> | <mats> | <tips n·N·S>
-  pat   <size> <aa 0/1> <useAmb 0/1> | <taxa…> | <name=SEQ …>   -> patterns, weights, tip vectors, tip states
-  sym   <aa 0/1> <useAmb 0/1> <ord>                 -> tip vector and tip state of one character
--/
-open TT TT.Proto TT.C01
-
-class Wire (α : Type) where
-  parse : String → Option α
-  render : α → String
-
-instance : Wire Rat := ⟨parseRat, showRat⟩
-instance : Wire Float := ⟨parseFloatBits, floatBits⟩
-instance : TT.Trans Rat := ⟨fun x => x, fun x => x, fun x => x, fun x _ => x⟩  -- never used at `Rat`
-
-def sections (line : String) : List (List String) :=
-  (line.splitOn "|").map splitWords
-
-def parseNats (ws : List String) : Option (List Nat) := ws.mapM (·.toNat?)
-
-def parseTriple (w : String) : Option (Nat × Nat × Nat) :=
-  match (w.splitOn ",").mapM (·.toNat?) with
-  | some [a, b, c] => some (a, b, c)
-  | _ => none
-
-def showTriples (l : List (Nat × Nat × Nat)) : String :=
-  ";".intercalate (l.map fun t => s!"{t.1},{t.2.1},{t.2.2}")
-def showPairs (l : List (Nat × Nat)) : String :=
-  ";".intercalate (l.map fun t => s!"{t.1},{t.2}")
-
-def showITree : ITree → String
-  | .leaf i => toString i
-  | .node i l r => s!"({showITree l},{showITree r}){i}"
-
-def buildTree (taxa toks : List String) : Option (ITree × BTree) := do
-  let nt ← parseNTree toks
-  if nt.leaves.any (fun nm => !taxa.contains nm) then none else
-  let bt := nt.toBTree taxa
-  pure (setupIndexes taxa.length bt, bt)
-
-section generic
-variable {α : Type} [Add α] [Sub α] [Mul α] [Zero α] [One α] [Inhabited α] [Wire α] [TT.Trans α]
-
-def parseScalars (ws : List String) : Option (Array α) := (ws.mapM Wire.parse).map List.toArray
-def renderList (l : List α) : String := " ".intercalate (l.map Wire.render)
-
-def matsOf (K S : Nat) (a : Array α) : Mats α K S :=
-  fun b k s j => a[((b * K + k.val) * S + s.val) * S + j.val]!
-
-def vecOf {S : Nat} (a : Array α) (off : Nat) : Fin S → α := fun s => a[off + s.val]!
-
-def finishLik (liks : List (Option α)) (weights : Option (Array α)) : String :=
-  match liks.mapM id with
-  | none => "none"
-  | some ls =>
-    let base := "ok " ++ renderList ls
-    match weights with
-    | some w => base ++ " ll " ++ Wire.render (logLik ls w.toList)
-    | none => base
-
-def doLik (S K n N : Nat) (secs : List (List String)) : String :=
-  match secs with
-  | tr :: pi :: pr :: ms :: tp :: rest =>
-    match tr.mapM parseTriple, parseScalars (α := α) pi, parseScalars (α := α) pr,
-          parseScalars (α := α) ms, parseScalars (α := α) tp with
-    | some post, some pi, some pr, some ms, some tp =>
-      if pi.size ≠ S || pr.size ≠ K || tp.size ≠ n * N * S || ms.size % (K * S * S) ≠ 0 then "bad-op" else
-      let weights : Option (Option (Array α)) := match rest with
-        | [] => some none
-        | [w] => (parseScalars (α := α) w).map some
-        | _ => none
-      match weights with
-      | none => "bad-op"
-      | some weights =>
-        let mats := matsOf K S ms
-        let liks := (List.range N).map fun p =>
-          siteLik (vecOf pi 0) (vecOf (S := K) pr 0) mats post n (fun i => vecOf tp ((i * N + p) * S))
-        finishLik liks weights
-    | _, _, _, _, _ => "bad-op"
-  | _ => "bad-op"
-
-def doLikTS (S K N : Nat) (secs : List (List String)) : String :=
-  match secs with
-  | tr :: pi :: pr :: ms :: stt :: rest =>
-    match tr.mapM parseTriple, parseScalars (α := α) pi, parseScalars (α := α) pr,
-          parseScalars (α := α) ms, parseNats stt with
-    | some post, some pi, some pr, some ms, some stt =>
-      if pi.size ≠ S || pr.size ≠ K || ms.size % (K * S * S) ≠ 0 || stt.length ≠ (post.length + 1) * N then "bad-op" else
-      let weights : Option (Option (Array α)) := match rest with
-        | [] => some none
-        | [w] => (parseScalars (α := α) w).map some
-        | _ => none
-      match weights with
-      | none => "bad-op"
-      | some weights =>
-        let mats := matsOf K S ms
-        let stt := stt.toArray
-        let liks := (List.range N).map fun p =>
-          siteLikTS (vecOf pi 0) (vecOf (S := K) pr 0) mats post (fun i => stt[i * N + p]!)
-        finishLik liks weights
-    | _, _, _, _, _ => "bad-op"
-  | _ => "bad-op"
-
-def doMarg (S K n N : Nat) (secs : List (List String)) : String :=
-  match secs with
-  | [taxa, toks, pi, pr, ms, tp] =>
-    match buildTree taxa toks, parseScalars (α := α) pi, parseScalars (α := α) pr,
-          parseScalars (α := α) ms, parseScalars (α := α) tp with
-    | some (it, _), some pi, some pr, some ms, some tp =>
-      if taxa.length ≠ n || pi.size ≠ S || pr.size ≠ K || tp.size ≠ n * N * S || ms.size % (K * S * S) ≠ 0 then "bad-op" else
-      let mats := matsOf K S ms
-      let liks := (List.range N).map fun p =>
-        some (marginal (vecOf pi 0) (vecOf (S := K) pr 0) mats (fun i => vecOf tp ((i * N + p) * S)) it)
-      finishLik liks none
-    | _, _, _, _, _ => "bad-op"
-  | _ => "bad-op"
-
-def doBlt (secs : List (List String)) : String :=
-  match secs with
-  | [taxa, toks, hs] =>
-    match buildTree taxa toks, parseScalars (α := α) hs with
-    | some (it, _), some hs =>
-      if hs.size ≠ 2 * taxa.length - 1 then "bad-op" else
-      "ok " ++ renderList (timeTreeBranchLengths hs it)
-    | _, _ => "bad-op"
-  | _ => "bad-op"
-
-def doBlu (secs : List (List String)) : String :=
-  match secs with
-  | [taxa, toks, es] =>
-    match buildTree taxa toks, parseScalars (α := α) es with
-    | some (it, _), some es =>
-      if es.size ≠ 2 * taxa.length - 2 then "bad-op" else
-      "ok " ++ renderList (unrootedKeptLengths es it)
-    | _, _ => "bad-op"
-  | _ => "bad-op"
-
-def renderRows (rows : List (List α)) : String := " ; ".intercalate (rows.map renderList)
-
-def doAsmU (secs : List (List String)) : String :=
-  match secs with
-  | [bl, sr] =>
-    match parseScalars (α := α) bl, parseScalars (α := α) sr with
-    | some bl, some sr => "ok " ++ renderRows (assembleUnrooted bl.toList sr.toList)
-    | _, _ => "bad-op"
-  | _ => "bad-op"
-
-def doAsmC (secs : List (List String)) : String :=
-  match secs with
-  | [bl, cr, sr] =>
-    match parseScalars (α := α) bl, parseScalars (α := α) cr, parseScalars (α := α) sr with
-    | some bl, some cr, some sr =>
-      if bl.size ≠ cr.size then "bad-op" else
-      "ok " ++ renderRows (assembleClock bl.toList cr.toList sr.toList)
-    | _, _, _ => "bad-op"
-  | _ => "bad-op"
-
-end generic
-
-def parseSeq (w : String) : Option (String × List Char) :=
-  match w.splitOn "=" with
-  | [nm, s] => some (nm, s.toList)
-  | _ => none
-
-def showSym (s : Sym) : String := String.ofList s
-def showNats (l : List Nat) : String := "".intercalate (l.map toString)
-
-def doPat (size : Nat) (aa useAmb : Bool) (secs : List (List String)) : String :=
-  match secs with
-  | [taxa, seqs] =>
-    match seqs.mapM parseSeq with
-    | none => "bad-op"
-    | some seqs =>
-      let pats := patterns size taxa seqs
-      let cols := pats.map (·.1)
-      let ws := pats.map (·.2)
-      -- per taxon (Taxa order): symbols of every pattern, tip vectors, tip states
-      let rows := taxa.map fun nm => cols.map fun p => symbolOf taxa seqs nm p
-      if rows.any (fun r => r.any Option.isNone) then "err missing-taxon" else
-      let rows := rows.map fun r => r.map fun o => o.getD []
-      let part := rows.map fun r => r.map fun s => symPartial aa useAmb s
-      let sts := rows.map fun r => r.map fun s => symTipState aa s
-      let showPart (r : List (Option (List Nat))) : String :=
-        ",".intercalate (r.map fun o => match o with | some v => showNats v | none => "x")
-      let showSt (r : List (Option Nat)) : String :=
-        ",".intercalate (r.map fun o => match o with | some v => toString v | none => "x")
-      s!"ok w {",".intercalate (ws.map toString)} rows {";".intercalate (rows.map fun r => ",".intercalate (r.map showSym))} part {";".intercalate (part.map showPart)} st {";".intercalate (sts.map showSt)}"
-  | _ => "bad-op"
-
-def parseBool : String → Option Bool | "1" => some true | "0" => some false | _ => none
-
-def handle (line : String) : String :=
-  match sections line with
-  | [["idx"], taxa, toks] =>
-    match buildTree taxa toks with
-    | some (it, bt) =>
-      s!"ok post {showTriples (postorder it)} pre {showPairs (preorder it)} tree {showITree it} leaves {" ".intercalate (bt.leaves.map toString)}"
-    | none => "bad-op"
-  | ["blt", m] :: rest =>
-    if m = "q" then doBlt (α := Rat) rest else if m = "f" then doBlt (α := Float) rest else "bad-op"
-  | ["blu", m] :: rest =>
-    if m = "q" then doBlu (α := Rat) rest else if m = "f" then doBlu (α := Float) rest else "bad-op"
-  | ["asmu", m] :: rest =>
-    if m = "q" then doAsmU (α := Rat) rest else if m = "f" then doAsmU (α := Float) rest else "bad-op"
-  | ["asmc", m] :: rest =>
-    if m = "q" then doAsmC (α := Rat) rest else if m = "f" then doAsmC (α := Float) rest else "bad-op"
-  | ["lik", m, s, k, n, nn] :: rest =>
-    match s.toNat?, k.toNat?, n.toNat?, nn.toNat? with
-    | some s, some k, some n, some nn =>
-      if m = "q" then doLik (α := Rat) s k n nn rest
-      else if m = "f" then doLik (α := Float) s k n nn rest else "bad-op"
-    | _, _, _, _ => "bad-op"
-  | ["likts", m, s, k, nn] :: rest =>
-    match s.toNat?, k.toNat?, nn.toNat? with
-    | some s, some k, some nn =>
-      if m = "q" then doLikTS (α := Rat) s k nn rest
-      else if m = "f" then doLikTS (α := Float) s k nn rest else "bad-op"
-    | _, _, _ => "bad-op"
-  | ["marg", m, s, k, n, nn] :: rest =>
-    match s.toNat?, k.toNat?, n.toNat?, nn.toNat? with
-    | some s, some k, some n, some nn =>
-      if m = "q" then doMarg (α := Rat) s k n nn rest
-      else if m = "f" then doMarg (α := Float) s k n nn rest else "bad-op"
-    | _, _, _, _ => "bad-op"
-  | ["pat", size, aa, ua] :: rest =>
-    match size.toNat?, parseBool aa, parseBool ua with
-    | some size, some aa, some ua => doPat size aa ua rest
-    | _, _, _ => "bad-op"
-  | [["sym", aa, ua, o]] =>
-    match parseBool aa, parseBool ua, o.toNat? with
-    | some aa, some ua, some o =>
-      let c := Char.ofNat o
-      let p := symPartial aa ua [c]
-      let st := symTipState aa [c]
-      s!"ok {match p with | some v => showNats v | none => "x"} {match st with | some v => toString v | none => "x"}"
-    | _, _, _ => "bad-op"
-  | _ => "bad-op"
-
-def main : IO Unit := mainLoop handle
+import TTModel.C01_Handle
+/-! C01 driver: see `TTModel/C01_Handle.lean` for the protocol. -/
+def main : IO Unit := TT.Proto.mainLoop TT.C01.Drv.handle
